@@ -7,7 +7,7 @@ import WuffsVerif.Model.Png.Spec
   reset                                          -> ok
   encode W H STRIDE DEPTH CT PIX [failat:K]      -> STATUS N ITEM*   (N Write calls, one ITEM each)
         STATUS = ok | invalid-argument | unsupported-size | write-error | panic   (panic prints no items)
-        PIX    = hex | - | seeded:SEED:LEN | fill:XX:LEN | adlerstress:LEN
+        PIX    = hex | - | seeded:SEED:LEN | fill:XX:LEN | adlerstress:LEN:C
   specdecode (last | hex)                        -> none | some W H DEPTH CT ITEM(pixels)
         `last` = concatenation of the Write calls of the previous encode
   ITEM = lower-case hex when at most 1024 bytes ("-" when empty), else
@@ -51,14 +51,17 @@ def seeded (seed : UInt64) (len : Nat) : Array UInt8 := Id.run do
     a := a.push (z >>> (8 * (i % 8)).toUInt64).toUInt8
   return a
 
-/-- `adlerstress:LEN`: 256 × 0xFF, 239, zeros up to index 5550, then 0xFF (see the harness). -/
-def adlerStress (len : Nat) : Array UInt8 :=
+/-- `adlerstress:LEN:C`: 256 × 0xFF, 239, zeros up to index C-2, then 0xFF (see the harness). -/
+def adlerStress (len c : Nat) : Array UInt8 :=
   Array.ofFn (n := len) (fun i =>
-    if i.val < 256 then 0xFF else if i.val = 256 then 239 else if i.val < 5551 then 0 else 0xFF)
+    if i.val < 256 then 0xFF else if i.val = 256 then 239 else if i.val < c - 1 then 0 else 0xFF)
 
 def parsePix (s : String) : Option (Array UInt8) :=
   match s.splitOn ":" with
-  | ["adlerstress", ln] => ln.toNat?.map adlerStress
+  | ["adlerstress", ln, c] => do
+    let ln ← ln.toNat?
+    let c ← c.toNat?
+    pure (adlerStress ln c)
   | ["seeded", sd, ln] => do
     let sd ← sd.toNat?
     let ln ← ln.toNat?
